@@ -204,7 +204,9 @@ package signaling_rpc_server
 //@   nosweep nil-deref
 //@   requires isobj(s) && isobj(sess) && isobj(ourPeerTkr) && isobj(dstPeer)
 //@   cs Server.mtx ensures forall t *sessionTracker trigger t.wait :: old(isobj(t)) && (t.seqno != old(t.seqno) || t.peerA != old(t.peerA) || t.peerB != old(t.peerB) || t.wait != old(t.wait)) ==> old(t.wait) == nil || chanClosed[old(t.wait)]
-//@   cs Server.mtx ensures forall t *sessionTracker trigger t.seqno :: old(isobj(t)) && t != sess ==> t.seqno == old(t.seqno) && t.peerA == old(t.peerA) && t.peerB == old(t.peerB)
+//@   cs Server.mtx ensures forall t *sessionTracker trigger t.seqno :: old(isobj(t)) && t != sess ==> t.seqno == old(t.seqno)
+//@   cs Server.mtx ensures forall t *sessionTracker trigger t.peerA :: old(isobj(t)) && t != sess ==> t.peerA == old(t.peerA)
+//@   cs Server.mtx ensures forall t *sessionTracker trigger t.peerB :: old(isobj(t)) && t != sess ==> t.peerB == old(t.peerB)
 //@   cs Server.mtx ensures old((localIsPeerA && sess.peerA == ourPeerTkr) || (!localIsPeerA && sess.peerB == ourPeerTkr)) ==> sess.seqno != old(sess.seqno) && (old(sess.seqno) < 18446744073709551615 ==> sess.seqno == old(sess.seqno) + 1) && (localIsPeerA ==> sess.peerA == nil && sess.peerB == old(sess.peerB)) && (!localIsPeerA ==> sess.peerB == nil && sess.peerA == old(sess.peerA))
 //@   cs Server.mtx ensures !old((localIsPeerA && sess.peerA == ourPeerTkr) || (!localIsPeerA && sess.peerB == ourPeerTkr)) ==> sess.seqno == old(sess.seqno) && sess.peerA == old(sess.peerA) && sess.peerB == old(sess.peerB)
 //@   cs Server.mtx ensures forall t *sessionPeerTracker trigger t.recv :: old(isobj(t)) ==> t.recvClear == old(t.recvClear) && t.outAcked == old(t.outAcked) && (t.recv == old(t.recv) || t.recv == nil) && (t.recvSent == old(t.recvSent) || t.recvSent == nil)
